@@ -230,6 +230,9 @@ def run_jwt_at(ctx):
     try:
         n = 1200 if ctx.tier == "quick" else 20000
         pool = [None, True, 0, 1, "", "x", [], ["x"], {}, NOW - 1, NOW, NOW + 1, NOW + 0.5, float(NOW), ISS, RS, [RS], [RS, "other"], ["other"], "a b", ["a", "b"]]
+        # look-alikes of the expected issuer and audience: containing, contained, differing in case or by one character
+        alike = [RS + ".attacker.example", "https://evil.example/?next=" + RS, RS[:-1], RS + "/", " " + RS, RS.upper(), [RS + "x"], [RS[1:]], RS + " other",
+                 ISS + ".attacker.example", ISS[:-1], ISS + "/", ISS.upper(), "x" + ISS]
         for i in range(n):
             claims = {"iss": ISS, "sub": "u", "aud": rng.choice([RS, [RS], [RS, "other"]]), "exp": NOW + rng.choice([0, 1, 60]),
                       "iat": NOW - rng.choice([0, 5]), "client_id": "c", "jti": "j%d" % i, "scope": rng.choice(["a b", "a", "", "a b c"])}
@@ -244,13 +247,15 @@ def run_jwt_at(ctx):
                     claims[cname] = " ".join(rng.sample(vocab, rng.choice([1, 2])))
                 elif r < 0.6:
                     claims[cname] = rng.choice([[], "", None])
+            if rng.random() < 0.08:
+                claims[rng.choice(["aud", "iss"])] = rng.choice(alike)
             nm = rng.choice([0, 0, 0, 0, 0, 1, 1, 2])
             for _ in range(nm):
                 k = rng.choice(["iss", "sub", "aud", "exp", "iat", "nbf", "client_id", "jti", "auth_time", "amr", "acr", "scope"])
                 if rng.random() < 0.35:
                     claims.pop(k, None)
                 else:
-                    v = rng.choice(pool)
+                    v = rng.choice(pool if rng.random() < 0.7 or k not in ("iss", "aud") else alike)
                     if k in ("scope",) and not isinstance(v, (str, list, type(None))):
                         continue
                     if k == "scope" and isinstance(v, list) and any(not isinstance(x, str) for x in v):
